@@ -10,9 +10,9 @@ EVERY = {"quick": {"issue": 60, "lock": 50}, "thorough": {"issue": 10, "lock": 1
 EVERY_C10 = {"quick": 150, "thorough": 10}
 NSIM = {"quick": 150, "thorough": 1200}
 # Rolled-back transactions of these operations trip open findings (memory is
-# advanced inside the transaction: F10, F11, F14, F17). Only the property that
+# advanced inside the transaction: F10, F11, F14, F17, F24, F26). Only the property that
 # owns the finding generates them; the others leave those histories out.
-ALLRB = '{"Extend", "SetSynced", "ChangePriv", "ChangePub", "ConvertWO", "NewScope"}'
+ALLRB = '{"Extend", "SetSynced", "ChangePriv", "ChangePub", "ConvertWO", "NewScope", "Import"}'
 NOROLLBACK = {"C03": ALLRB, "C04": ALLRB, "C05": '{"Extend", "SetSynced", "NewScope"}', "C08": "{}", "C10": ALLRB}
 
 
